@@ -44,7 +44,7 @@ ESTABLISHED = (10, 11, 12, 17)
 
 def corpus_cases():
     out = []
-    for path in sorted(glob.glob(os.path.join(C.VERIF, "corpus", "session", "*.json"))):
+    for path in sorted(glob.glob(os.path.join(C.VERIF, "corpus", "session", "c11_*.json"))):
         with open(path) as f:
             for e in json.load(f):
                 a = S.parse_conn_tokens(e["conn"])
@@ -203,6 +203,14 @@ def sentences(a: S.AbsConn, ev, eff, post_tokens):
         yield (f"C11-prelogon-delivery:{a.state}", "application message delivered before the Logon exchange completed")
     if prelogon and "L" in k and mt != "A":
         yield (f"C11-prelogon-logon-callback:{a.state}:{mt}", "on_logon without a Logon")
+    # -- a too-low MsgSeqNum is never handed to the application – also in the tolerated classes
+    #    (SequenceReset, PossDup duplicates while awaiting a resend), which only escape the disconnect
+    dd = {}
+    for t, v in m[1]:
+        dd.setdefault(t, v)
+    n34 = pyint(dd[34]) if 34 in dd else None
+    if n34 is not None and n34 < a.next_in and "D" in k:
+        yield ("C11-toolow-delivered", "message numbered below the expected MsgSeqNum handed to the application")
     drop = d is not None or (a.state == 6 and mt != "A") or (a.state == 7 and mt not in ("A", "5"))
     if not drop:
         return
